@@ -11,7 +11,7 @@ keyed by site."""
 from vlib import *
 import translate_c04
 
-MODULES = ["JxlModel.Props.C04"]
+MODULES = ["JxlModel.Props.C04", "JxlModel.Props.C04Table"]
 M32 = 2 ** 32
 # frozen Spec copy of the 120 special distances (dx, dy) — deliberately NOT read from /repo
 SPECIAL_SPEC = [(0, 1), (1, 0), (1, 1), (-1, 1), (0, 2), (2, 0), (1, 2), (-1, 2), (2, 1), (-2, 1), (2, 2), (-2, 2), (0, 3), (3, 0), (1, 3), (-1, 3), (3, 1), (-3, 1), (2, 3), (-2, 3), (3, 2), (-3, 2), (0, 4), (4, 0), (1, 4), (-1, 4), (4, 1), (-4, 1), (3, 3), (-3, 3), (2, 4), (-2, 4), (4, 2), (-4, 2), (0, 5), (3, 4), (-3, 4), (4, 3), (-4, 3), (5, 0), (1, 5), (-1, 5), (5, 1), (-5, 1), (2, 5), (-2, 5), (5, 2), (-5, 2), (4, 4), (-4, 4), (3, 5), (-3, 5), (5, 3), (-5, 3), (0, 6), (6, 0), (1, 6), (-1, 6), (6, 1), (-6, 1), (2, 6), (-2, 6), (6, 2), (-6, 2), (4, 5), (-4, 5), (5, 4), (-5, 4), (3, 6), (-3, 6), (6, 3), (-6, 3), (0, 7), (7, 0), (1, 7), (-1, 7), (5, 5), (-5, 5), (7, 1), (-7, 1), (4, 6), (-4, 6), (6, 4), (-6, 4), (2, 7), (-2, 7), (7, 2), (-7, 2), (3, 7), (-3, 7), (7, 3), (-7, 3), (5, 6), (-5, 6), (6, 5), (-6, 5), (8, 0), (4, 7), (-4, 7), (7, 4), (-7, 4), (8, 1), (8, 2), (6, 6), (-6, 6), (8, 3), (5, 7), (-5, 7), (7, 5), (-7, 5), (8, 4), (6, 7), (-6, 7), (7, 6), (-7, 6), (8, 5), (7, 7), (-7, 7), (8, 6), (8, 7)]
@@ -541,13 +541,161 @@ def run_both(ctx, lines, ok_model):
             o, rc1, err1 = ctx.run_impl("c04", [l])
             impl.append(o[0] if rc1 == 0 and o else f"abort rc={rc1}")
     if ok_model:
-        model, rc2, err2 = ctx.run_model("c04", lines)
+        # every 8th dec / rle / perm line also runs the Impl table reader in the model (ops deci / rlei / permi)
+        def mark(i, l):
+            w = l.split(" ", 1)
+            if i % 8 == 0 and w[0] in ("dec", "rle", "perm") and len(w) == 2:
+                return w[0] + "i " + w[1]
+            return l
+        model, rc2, err2 = ctx.run_model("c04", [mark(i, l) for i, l in enumerate(lines)])
         if rc2 != 0 or len(model) != len(lines):
             ctx.failed_obligations.append(f"model driver c04 died rc={rc2} {err2[-300:]}")
             model = impl
+        else:
+            # the model driver also runs the Impl table reader (PrefixTable.lean) next to the Spec
+            # reader at every token position; a disagreement is marked on the model's line
+            bad = [(l, mo) for l, mo in zip(lines, model) if "impl-spec-mismatch" in mo]
+            for l, mo in bad[:5]:
+                ctx.violation("impl-spec-mismatch", mo[-300:],
+                              {"line": l, "model": mo[:2000],
+                               "how": "feed line to jxlmodel c04: the two-level table reader (Impl) and the canonical-interval reader (Spec) disagree"},
+                              key="c04:impl-spec-mismatch")
+            if bad:
+                ctx.count("impl-spec-mismatch", len(bad))
+                ctx.failed_obligations.append(
+                    f"prefix table reader (Impl) differs from the Spec reader on {len(bad)} decoded stream(s), first: {bad[0][0][:200]}")
     else:
         model = impl
     return impl, model
+
+
+# ------------------------------------------------------------------------------------------------
+# `ptab`: with_code_lengths tables (Impl) against the canonical code (Spec) on all 2^15 look-aheads
+def split_lengths(rng, n_leaves, maxlen=15, multi=False, deep_bias=0.0):
+    """complete code by repeatedly splitting a leaf: length l → two of l+1 (l < maxlen); with
+    `multi` a split may go d levels at once (l → 2^d leaves of l+d), which leaves unused lengths"""
+    leaves = [1, 1]
+    guard = 0
+    while len(leaves) < n_leaves and guard < 10 * n_leaves + 100:
+        guard += 1
+        cand = [i for i, l in enumerate(leaves) if l < maxlen]
+        if not cand:
+            break
+        if rng.random() < deep_bias:
+            m = max(leaves[i] for i in cand)
+            cand = [i for i in cand if leaves[i] == m]
+        i = rng.choice(cand)
+        l = leaves[i]
+        d = 1
+        if multi and rng.random() < 0.3:
+            d = rng.randint(1, min(maxlen - l, 4))
+        leaves[i:i + 1] = [l + d] * (1 << d)
+    return leaves
+
+
+def place_symbols(rng, leaves, zeros):
+    """shuffle the symbols and insert `zeros` unused ones"""
+    v = list(leaves) + [0] * zeros
+    rng.shuffle(v)
+    return v
+
+
+def ptab_case(rng, kind):
+    """(length vector, complete?)"""
+    if kind == "short":                      # (a) every length ≤ 10: top-level table only
+        n = rng.choice([2, 3, 4, 5, 8, 16, 17, rng.randint(2, 64), rng.randint(2, 200)])
+        leaves = split_lengths(rng, n, maxlen=rng.randint(max(1, (n - 1).bit_length()), 10))
+        return place_symbols(rng, leaves, rng.choice([0, 0, 1, rng.randint(0, 40)])), True
+    if kind == "flat":                       # all leaves on one level (1 … 15)
+        d = rng.randint(1, 8) if rng.random() < 0.85 else rng.randint(9, 11)    # 2^15·2^d steps in the model
+        return place_symbols(rng, [d] * (1 << d), rng.choice([0, 3])), True
+    if kind == "chain":                      # (b) 1,2,…,k-1,k,k, k up to 15: nested chunks with replication
+        k = rng.randint(11, 15)
+        leaves = list(range(1, k + 1)) + [k]
+        if rng.random() < 0.5:
+            return leaves, True
+        return place_symbols(rng, leaves, rng.choice([0, 5, 40])), True
+    if kind == "sparse":                     # (c) 1,2,3,… with long gaps between the used symbols
+        k = rng.randint(11, 15)
+        leaves = list(range(1, k + 1)) + [k]
+        if rng.random() < 0.5:
+            leaves.reverse()
+        v = []
+        for l in leaves:
+            v += [0] * rng.choice([0, 1, 7, 30]) + [l]
+        return v + [0] * rng.choice([0, 9]), True
+    if kind == "tail":                       # ≤ 10 levels, then sub-trees below level 10 with gaps
+        leaves = split_lengths(rng, rng.randint(11, 40), maxlen=10, deep_bias=0.7)
+        out = []
+        for l in leaves:
+            if l == 10 and rng.random() < 0.7:
+                sub = split_lengths(rng, rng.randint(2, 12), maxlen=5, multi=True)
+                out += [10 + x for x in sub]
+            elif l == 10 and rng.random() < 0.5:
+                d = rng.randint(1, 5)
+                out += [10 + d] * (1 << d)
+            else:
+                out.append(l)
+        return place_symbols(rng, out, rng.choice([0, 2, 20])), True
+    if kind == "random":                     # (d) random splits, shuffled, zeros inserted
+        n = rng.choice([rng.randint(2, 40), rng.randint(20, 150), rng.randint(100, 300)])
+        leaves = split_lengths(rng, n, multi=rng.random() < 0.5, deep_bias=rng.choice([0.0, 0.3, 0.8]))
+        return place_symbols(rng, leaves, rng.choice([0, 1, rng.randint(0, 60)])), True
+    # (e) incomplete (Kraft sum < 1), never over-subscribed
+    base, _ = ptab_case(rng, rng.choice(["short", "chain", "tail", "random"]))
+    used = [i for i, l in enumerate(base) if l > 0]
+    how = rng.choice(["drop", "longer", "drop2", "empty", "zeros", "one"])
+    if how == "empty":
+        return [], False
+    if how == "zeros":
+        return [0] * rng.randint(1, 20), False
+    if how == "one":                         # one used symbol with a non-zero length
+        return place_symbols(rng, [rng.randint(1, 15)], rng.randint(0, 5)), False
+    if how == "longer":
+        c = [i for i in used if base[i] < 15]
+        if c:
+            base[rng.choice(c)] += rng.randint(1, 2)
+            base = [min(l, 15) for l in base]
+            return base, False
+    for i in rng.sample(used, 1 if how != "drop2" else min(2, len(used))):
+        base[i] = 0
+    return base, False
+
+
+def ptab_cases(ctx, ok):
+    if not ok:
+        return
+    rng = ctx.rng
+    scale = 1 if ctx.quick else 10
+    plan = [("short", 8), ("flat", 3), ("chain", 6), ("sparse", 5), ("tail", 7), ("random", 7), ("incomplete", 6)]
+    cases = [([1, 1], True, "short"), (list(range(1, 16)) + [15], True, "chain")]
+    for kind, k in plan:
+        for _ in range(k * scale - (1 if kind in ("short", "chain") else 0)):
+            lens, complete = ptab_case(rng, kind)
+            cases.append((lens, complete, kind))
+    lines = ["ptab %d%s" % (len(lens), "".join(" %d" % l for l in lens)) for lens, _, _ in cases]
+    out, rc, err = ctx.run_model("c04", lines)
+    if rc != 0 or len(out) != len(lines):
+        ctx.failed_obligations.append(f"model driver c04 (ptab) died rc={rc} {err[-300:]}")
+        return
+    for (lens, complete, kind), l, o in zip(cases, lines, out):
+        ctx.case(l, True)
+        ctx.count("ptab:" + kind)
+        if any(x > 10 for x in lens):
+            ctx.count("ptab:second-level")
+        replay = {"line": l, "model": o[:400], "kraft_complete": complete,
+                  "how": "feed line to jxlmodel c04 (Impl tables of with_code_lengths/read_symbol against the Spec code on all 2^15 look-aheads)"}
+        if "impl-spec-mismatch" in o:
+            ctx.violation("impl-spec-mismatch", o[:300], replay, key="c04:impl-spec-mismatch")
+        elif complete and not o.startswith("ok agree=32768"):
+            ctx.violation("impl-spec-mismatch", "complete code rejected by both constructions: " + o[:200], replay,
+                          key="c04:ptab-complete-rejected")
+        elif not complete and not o.startswith("both-err:"):
+            ctx.violation("impl-spec-mismatch", "incomplete code accepted: " + o[:200], replay,
+                          key="c04:ptab-incomplete-accepted")
+        else:
+            ctx.count("ptab-result:" + ("agree" if complete else "both-err"))
+    ctx.sample({"ptab": lines[1], "model": out[1]}, limit=8)
 
 
 def run(ctx):
@@ -948,6 +1096,7 @@ def run(ctx):
                 ctx.failed_obligations.append(
                     f"correspondence on malformed stream: impl {io[-160:]!r} model {mo[-160:]!r} :: {l[:120]}")
     window_cases(ctx, ok)
+    ptab_cases(ctx, ok)
     ctx.assumptions += [
         "the bit reader is modelled abstractly (bit list, zero padded peeks, silent failure of the unchecked consume in read_uint_prefilled); the 64-bit buffer refill is exercised only through the correspondence run",
         "dist_multiplier < 2^27 (offset + multiplier*dist is computed in i32 by the code)",
